@@ -375,7 +375,154 @@ def attr_same(name, a, b, out, depth=0):
     deep_same(a, b, name, out)
 
 
+ON_POLICY, CONTINUOUS_ONLY = ("A2C", "PPO"), ("SAC", "TD3", "DDPG")
+
+
+def gen_model_spec(rng):
+    """one whole-model configuration with unusual-but-legal hyper-parameter values (JSON-able, so it can be replayed)"""
+    algo = rng.choice(["A2C", "PPO", "DQN", "SAC", "TD3", "DDPG"])
+    sp = {"algo": algo, "steps": rng.choice([0, 0, 12, 20]), "path": rng.choice(["str", "pathlib", "bytesio"]),
+          "seed": rng.choice([None, 0, 7, 123]), "device": rng.choice(["cpu", "auto"]), "stats_window_size": rng.choice([100, 5, 1]),
+          "learning_rate": rng.choice([0.001, 0.0005, "linear", "linear"]), "activation_fn": rng.choice([None, "ReLU", "Tanh", "ELU"]),
+          "optimizer_kwargs": rng.choice([None, {"eps": 1e-5}, {"weight_decay": 0.01}]), "normalize_images": rng.choice([None, False]),
+          "gamma": rng.choice([0.99, 0.5, 1.0])}
+    if algo in ON_POLICY:
+        sp["env"] = rng.choice(["discrete", "box"])
+        sp["net_arch"] = rng.choice([None, [], [8], ("tuple", [8, 8]), {"pi": [], "vf": []}, {"pi": [8], "vf": [4]}])
+        sp["share_features_extractor"] = rng.choice([None, True, False])
+        sp["use_sde"] = sp["env"] == "box" and rng.random() < 0.4
+        sp["sde_sample_freq"] = rng.choice([-1, 2])
+        sp["n_steps"] = rng.choice([4, 8])
+        sp["ent_coef"] = rng.choice([0.0, 0.01])
+        sp["max_grad_norm"] = rng.choice([0.5, 10.0])
+        if algo == "PPO":
+            sp["clip_range"] = rng.choice([0.2, "linear"])
+            sp["clip_range_vf"] = rng.choice([None, 0.3, "linear"])
+            sp["target_kl"] = rng.choice([None, 0.05])
+            sp["n_epochs"] = rng.choice([1, 2])
+        else:
+            sp["use_rms_prop"] = rng.choice([True, False])
+    else:
+        sp["env"] = "discrete" if algo == "DQN" else "box"
+        sp["train_freq"] = rng.choice([1, 2, ["tuple", [1, "episode"]], ["tuple", [3, "step"]]])
+        sp["gradient_steps"] = rng.choice([1, 2, -1])
+        sp["tau"] = rng.choice([0.005, 1.0, 0.5])
+        if algo == "DQN":
+            sp["net_arch"] = rng.choice([None, [], [8], [8, 4]])
+            sp["target_update_interval"] = rng.choice([1, 4, 100])
+            sp["exploration_fraction"] = rng.choice([0.1, 0.5, 1.0])
+            sp["exploration_final_eps"] = rng.choice([0.05, 0.5])
+        else:
+            sp["net_arch"] = rng.choice([None, [], [8], {"pi": [8], "qf": [4]}, {"pi": [], "qf": [8]}])
+            sp["n_critics"] = rng.choice([None, 1, 3])
+            sp["action_noise"] = rng.choice([None, "normal", "ou"]) if algo != "SAC" else None
+            if algo == "SAC":
+                sp["ent_coef"] = rng.choice(["auto", "auto_0.1", 0.2])
+                sp["target_entropy"] = rng.choice(["auto", -0.5])
+                sp["use_sde"] = rng.random() < 0.3
+                sp["sde_sample_freq"] = rng.choice([-1, 2])
+                sp["share_features_extractor"] = rng.choice([None, True, False])
+            else:
+                sp["share_features_extractor"] = rng.choice([None, True, False])
+                if algo == "TD3":
+                    sp["policy_delay"] = rng.choice([1, 2, 3])
+                    sp["target_policy_noise"] = rng.choice([0.2, 0.0])
+    return sp
+
+
+def _untag(v):
+    """JSON has no tuples: ["tuple", [...]] stands for one"""
+    if isinstance(v, (list, tuple)) and len(v) == 2 and v[0] == "tuple":
+        return tuple(v[1])
+    return v
+
+
+def _linear(scale):
+    return lambda p: scale * (0.25 + 0.75 * p)
+
+
+def kwargs_from_spec(sp):
+    import numpy as np
+    import torch as th
+    from stable_baselines3.common.noise import NormalActionNoise, OrnsteinUhlenbeckActionNoise
+
+    pk = {}
+    if sp.get("net_arch") is not None:
+        pk["net_arch"] = _untag(sp["net_arch"])
+    if sp.get("activation_fn"):
+        pk["activation_fn"] = getattr(th.nn, sp["activation_fn"])
+    if sp.get("optimizer_kwargs"):
+        pk["optimizer_kwargs"] = dict(sp["optimizer_kwargs"])
+    if sp.get("normalize_images") is not None:
+        pk["normalize_images"] = sp["normalize_images"]
+    for k in ("share_features_extractor", "n_critics"):
+        if sp.get(k) is not None:
+            pk[k] = sp[k]
+    kw = {"policy_kwargs": pk, "gamma": sp["gamma"], "tensorboard_log": None,
+          "learning_rate": _linear(1e-3) if sp["learning_rate"] == "linear" else sp["learning_rate"]}
+    if sp["algo"] != "DDPG":   # DDPG's constructor has no stats_window_size argument (and fixes n_critics=1 itself)
+        kw["stats_window_size"] = sp["stats_window_size"]
+    else:
+        pk.pop("n_critics", None)
+    for k in ("n_steps", "ent_coef", "max_grad_norm", "target_kl", "n_epochs", "use_rms_prop", "gradient_steps", "tau", "target_update_interval",
+              "exploration_fraction", "exploration_final_eps", "target_entropy", "policy_delay", "target_policy_noise"):
+        if k in sp:
+            kw[k] = sp[k]
+    if sp.get("use_sde"):
+        kw.update(use_sde=True, sde_sample_freq=sp["sde_sample_freq"])
+    if sp["algo"] == "PPO":
+        kw["batch_size"] = sp["n_steps"]
+        kw["clip_range"] = _linear(0.2) if sp["clip_range"] == "linear" else sp["clip_range"]
+        kw["clip_range_vf"] = _linear(0.3) if sp["clip_range_vf"] == "linear" else sp["clip_range_vf"]
+    if sp["algo"] not in ON_POLICY:
+        kw.update(learning_starts=4, buffer_size=40, batch_size=4, train_freq=_untag(sp["train_freq"]))
+        if sp.get("action_noise") == "normal":
+            kw["action_noise"] = NormalActionNoise(np.zeros(1), 0.1 * np.ones(1))
+        elif sp.get("action_noise") == "ou":
+            kw["action_noise"] = OrnsteinUhlenbeckActionNoise(np.zeros(1), 0.1 * np.ones(1))
+    return kw
+
+
+def resolve_config(case):
+    """-> (algo, env kind, kwargs builder, learn steps, path kind, exclude, include, seed, device)"""
+    if case["config"] == "random":
+        sp = case["spec"]
+        return sp["algo"], sp["env"], (lambda: kwargs_from_spec(sp)), sp["steps"], sp["path"], None, None, sp["seed"], sp["device"]
+    cfg = {c[0]: c for c in model_configs()}[case["config"]]
+    return (*cfg[1:], case.get("seed", 3), "cpu")
+
+
+def rewrite_archive_net_arch(path, new_value):
+    """turn a saved archive into the OLD format: policy_kwargs["net_arch"] = [dict(pi=..., vf=...)] (SB3 < 1.8)"""
+    import zipfile
+
+    with zipfile.ZipFile(path) as z:
+        items = {n: z.read(n) for n in z.namelist()}
+    data = json.loads(items["data"].decode())
+    assert isinstance(data["policy_kwargs"], dict) and ":serialized:" not in data["policy_kwargs"], "policy_kwargs must be stored as plain JSON for this case"
+    data["policy_kwargs"]["net_arch"] = new_value
+    items["data"] = json.dumps(data).encode()
+    with zipfile.ZipFile(path, "w") as z:
+        for n, b in items.items():
+            z.writestr(n, b)
+
+
 def run_model(case):
+    """every exception raised by construction / learn / save / load on these legal configurations is itself a violation"""
+    stage = {"at": "construct"}
+    try:
+        return _run_model(case, stage)
+    except Exception as e:  # noqa: BLE001
+        import traceback
+
+        tb = traceback.extract_tb(e.__traceback__)
+        where = next((f"{os.path.basename(f.filename)}:{f.lineno}" for f in reversed(tb) if "/stable_baselines3/" in f.filename), "?")
+        sig = {"construct": "oracle-construct-raises", "learn": "oracle-learn-raises", "save": "oracle-save-raises", "load": "oracle-load-raises"}.get(stage["at"], "oracle-model-run-raises")
+        return {"problems": [(sig, f"{stage['at']}() raises {type(e).__name__}: {e} (at {where}) for configuration {json.dumps(case.get('spec') or case['config'], default=str)[:400]}")],
+                "expr": "true"}
+
+
+def _run_model(case, stage):
     import numpy as np
     import torch as th
 
@@ -385,8 +532,7 @@ def run_model(case):
     from stable_baselines3.her.her_replay_buffer import HerReplayBuffer
 
     th.set_num_threads(1)
-    cfg = {c[0]: c for c in model_configs()}[case["config"]]
-    name, algo, env_kind, kw, steps, path_kind, exclude, include = cfg
+    algo, env_kind, kw, steps, path_kind, exclude, include, seed, device = resolve_config(case)
     cls = getattr(sb3, algo)
 
     def env_fn():
@@ -402,9 +548,11 @@ def run_model(case):
     try:
         with warnings.catch_warnings():
             warnings.simplefilter("ignore")
-            model = cls(policy, DummyVecEnv([env_fn]), seed=case.get("seed", 3), device="cpu", **kwargs)
+            model = cls(policy, DummyVecEnv([env_fn]), seed=seed, device=device, **kwargs)
             if steps:
+                stage["at"] = "learn"
                 model.learn(steps)
+            stage["at"] = "set_parameters"
             # set_parameters(get_parameters()) changes nothing
             import copy
 
@@ -416,16 +564,25 @@ def run_model(case):
             # save / load through the requested kind of path (HerReplayBuffer needs the env at load time; load() then
             # documents that _last_obs is discarded to force a reset)
             load_kw = {"env": DummyVecEnv([env_fn])} if env_kind == "her" else {}
+            stage["at"] = "save"
             if path_kind == "bytesio":
                 target = io.BytesIO()
                 model.save(target, exclude=exclude, include=include)
                 target.seek(0)
-                loaded = cls.load(target, device="cpu", **load_kw)
+                stage["at"] = "load"
+                loaded = cls.load(target, device=device, **load_kw)
             else:
                 p = os.path.join(d, "m")
                 target = p if path_kind == "str" else pathlib.Path(p)
                 model.save(target, exclude=exclude, include=include)
-                loaded = cls.load(target, device="cpu", **load_kw)
+                if case.get("legacy_net_arch") is not None:
+                    # an archive written by SB3 < 1.8: net_arch = [dict(pi=..., vf=...)]; load() must still accept it and convert it
+                    rewrite_archive_net_arch(p + ".zip", [case["legacy_net_arch"]])
+                stage["at"] = "load"
+                loaded = cls.load(target, device=device, **load_kw)
+            stage["at"] = "compare"
+            if case.get("legacy_net_arch") is not None and loaded.policy_kwargs.get("net_arch") != case["legacy_net_arch"]:
+                problems.append(("oracle-legacy-net-arch-not-converted", f"old-format net_arch [{case['legacy_net_arch']}] loaded as {loaded.policy_kwargs.get('net_arch')!r}"))
             # all three kinds of path give the same archive content
             if case.get("all_paths"):
                 blobs = []
@@ -476,7 +633,7 @@ def run_model(case):
                 if dv:
                     problems.append(("oracle-torch-variable-not-restored", "; ".join(dv[:2])))
             # ---- same actions for every observation
-            rng = np.random.RandomState(case.get("seed", 3))
+            rng = np.random.RandomState(seed or 0)
             if env_kind == "her":
                 obs = {k: sp.sample()[None].repeat(6, 0) for k, sp in model.observation_space.spaces.items()}
                 for k in obs:
@@ -514,7 +671,7 @@ def run_model(case):
             extra = os.path.join(d, "extra")
             model.save(extra)
             with contextlib.redirect_stdout(io.StringIO()) as sysinfo:
-                l2 = cls.load(extra, device="cpu", custom_objects={"gamma": 0.5, "learning_rate": 0.125}, print_system_info=True, **load_kw)
+                l2 = cls.load(extra, device=device, custom_objects={"gamma": 0.5, "learning_rate": 0.125}, print_system_info=True, **load_kw)
             outc = []
             if l2.gamma != 0.5 or l2.learning_rate != 0.125 or float(l2.lr_schedule(1.0)) != 0.125:
                 outc.append(f"custom gamma/learning_rate not used: {l2.gamma!r} {l2.learning_rate!r} {float(l2.lr_schedule(1.0))!r}")
@@ -527,7 +684,7 @@ def run_model(case):
             if outc:
                 problems.append(("oracle-load-custom-objects", "; ".join(outc[:3])))
             # ---- set_parameters(exact_match=False) with a partial dictionary: only the given objects change; exact_match=True refuses it
-            other = cls(policy, DummyVecEnv([env_fn]), seed=case.get("seed", 3) + 101, device="cpu", **kw())
+            other = cls(policy, DummyVecEnv([env_fn]), seed=(seed or 0) + 101, device=device, **kw())
             keep = copy.deepcopy(other.get_parameters())
             part = {"policy": copy.deepcopy(model.get_parameters()["policy"])}
             outp = []
@@ -606,6 +763,9 @@ def main():
     names = [c[0] for c in model_configs()]
     for j, nm in enumerate(names):
         cases.append({"kind": "model", "config": nm, "seed": 3 + chk.seed, "all_paths": j in (0, 7), "id": f"model-{nm}"})
+    # whole models with unusual-but-legal hyper-parameter values drawn per run
+    for j in range(24 if chk.tier == "quick" else 300):
+        cases.append({"kind": "model", "config": "random", "spec": gen_model_spec(chk.rng), "id": f"model-random-{j}"})
     if chk.tier == "thorough":
         for s in range(1, 9):
             for nm in names:
@@ -622,8 +782,8 @@ def main():
             if "plain" in im and any(k in json.dumps(c["items"]) for k in ('"tuple"', '"np_float64"', '"int",')) and any(not p for p in im["plain"]) and any(im["plain"]):
                 distinct.add(json.dumps(c["items"], sort_keys=True))
         else:
-            hist["models"].append(c["config"])
-            distinct.add(c["config"] + str(c.get("seed")))
+            hist["models"].append(c["config"] if c["config"] != "random" else c["spec"]["algo"] + ":net_arch=" + json.dumps(c["spec"].get("net_arch")))
+            distinct.add(json.dumps(c.get("spec") or c["config"], sort_keys=True) + str(c.get("seed")))
         for sig, msg in probs:
             is_oracle = sig.startswith("oracle-") or sig == RESERVED_KEY_SIG
             full = sig if is_oracle else "model-correspondence-" + sig
@@ -638,7 +798,10 @@ def main():
     chk.coverage["distinct_nontrivial"] = len(distinct)
     chk.coverage["rule"] = ("codec: dictionaries of 1-5 attributes whose values are random trees of depth <= 4 over None/bool/int/float/str/NaN, lists, tuples, dicts with str/int/float/bool/"
                             "None/tuple keys, np.float64 / IntEnum / str-subclass scalars, np.float32, np.int64, arrays, classes, callables, enums, sets, bytes, complex; "
-                            "whole models: 12 configurations over A2C, PPO, DQN (+HER), SAC, TD3, DDPG (see input_distribution.models). Non-trivial = (codec) a dictionary that contains a "
+                            "whole models: 12 fixed configurations over A2C, PPO, DQN (+HER), SAC, TD3, DDPG + 24 configurations drawn per run (net_arch [] / [8] / tuple / dict with empty or unequal "
+                            "parts, activation_fn, optimizer_kwargs, n_critics, share_features_extractor, normalize_images, gSDE with sde_sample_freq, tuple train_freq, gradient_steps=-1, constant "
+                            "vs callable learning_rate / clip_range, target_kl, stats_window_size, seed None vs int, device cpu/auto; before / after learn; all path kinds) + corpus (net_arch=[] for "
+                            "every algorithm, an archive in the pre-1.8 net_arch=[dict] format); any exception from construct/learn/save/load is a violation (see input_distribution.models). Non-trivial = (codec) a dictionary that contains a "
                             "tuple / np.float64 / int key and has both plain and pickled attributes; every whole-model run. distinct = distinct case description")
     chk.notes["input_distribution"] = hist
     chk.notes["corpus_cases"] = n_corpus
